@@ -164,6 +164,8 @@ func runC14(c *Ctx) {
 
 func runC15(c *Ctx) {
 	u, r := c.U, c.R
+	checkResolvedCallFields(c, "R-CACHE-SAME-FIELDS")
+	r.Floor("R-CACHE-SAME-FIELDS", 8)
 	// openCursorToken
 	if fn := c.Fn("R-AGE-ALL-PATHS", "(*HttpServer).openCursorToken"); fn != nil {
 		c.ageOnReturns(fn, "cursorTokenData.CreatedAt")
